@@ -15,7 +15,9 @@ use sim::runner::{Caught, classify_panic, harness_bug};
 
 use crate::api::*;
 use crate::model::*;
-use crate::typed;
+// compiled once per glue module so that the typed instances are spread over the codegen units as well
+#[path = "typed.rs"]
+pub mod typed;
 
 /// Payload used to unwind out of `levels` nested frames.
 pub struct UnwindLevels(pub u32);
@@ -291,7 +293,10 @@ where
         shared_carrier!(s, c % SHARED_CARRIERS.len(), 'a, g_is_claimed())
     }
     fn typed(&mut self, c: usize, req: &TypedReq) -> TypedRes {
-        typed::scope_typed(self.s, c, req)
+        // The typed entry points are thin generic wrappers; instantiating them for every settings family
+        // multiplies compile time, so they run on the families with DEALLOCATES and SHRINKS on (8 of 32 families,
+        // all minimum alignments, both directions, guaranteed-allocated on and off).
+        if const { S::DEALLOCATES && S::SHRINKS } { typed::scope_typed(self.s, c, req) } else { TypedRes::Unsupported }
     }
     fn claim_again(&self) {
         let _g = self.s.claim();
@@ -404,7 +409,7 @@ where
         self.b.is_claimed()
     }
     fn typed(&mut self, c: usize, req: &TypedReq) -> TypedRes {
-        typed::root_typed(self.b, c, req)
+        if const { S::DEALLOCATES && S::SHRINKS } { typed::root_typed(self.b, c, req) } else { TypedRes::Unsupported }
     }
     fn claim_again(&self) {
         let _g = self.b.claim();
@@ -413,13 +418,19 @@ where
 
 // ------------------------------------------------------------------ frames
 
-fn rethrow_levels(p: Box<dyn std::any::Any + Send>) -> u32 {
+/// What an unwind that arrived at a frame boundary was: an intended multi-level unwind, or a panic raised by
+/// the library while a frame was being entered / left (which the model did not expect: a violation).
+fn unwound_levels(p: Box<dyn std::any::Any + Send>, it: &mut Interp<'_>) -> u32 {
     match p.downcast::<UnwindLevels>() {
         Ok(l) => l.0,
         Err(p) => match classify_panic(p) {
             Caught::Harness(m) => harness_bug(m),
             Caught::Injected(n) => harness_bug(format!("injected callback panic {n} escaped its operation")),
-            Caught::Library(m) => harness_bug(format!("library panic escaped an operation: {m}")),
+            Caught::Library(m) => {
+                let class = format!("{}/frame-operation-panicked", it.trace.prop);
+                it.viol(&class, format!("entering or leaving a scope / claim / aligned region panicked: {m}"));
+                1
+            }
         },
     }
 }
@@ -504,7 +515,7 @@ where
                         }
                     }
                     Err(p) => {
-                        let levels = rethrow_levels(p);
+                        let levels = unwound_levels(p, it);
                         it.exit(&h, true);
                         if levels > 1 {
                             resume_unwind(Box::new(UnwindLevels(levels - 1)));
@@ -600,7 +611,7 @@ where
                 Ok(_) => {}
                 Err(p) => {
                     // an unwind aimed above the root frame: swallow it here
-                    let _ = rethrow_levels(p);
+                    let _ = unwound_levels(p, it);
                 }
             }
         }
@@ -637,7 +648,7 @@ where
         it.pc = 0;
         let r = catch_unwind(AssertUnwindSafe(|| frame(bump.as_mut_scope(), None, it, true)));
         if let Err(p) = r {
-            let _ = rethrow_levels(p);
+            let _ = unwound_levels(p, it);
         }
         it.pending_root = None;
         calls.push(sim::heap::with(0, |h| h.n_alloc - h.n_refused) - before);
